@@ -208,6 +208,7 @@ func (c *Conn) WaitTeardown(d time.Duration) bool {
 type Broker struct {
 	Srv  *service.Server
 	Name string
+	gate *gateProvider
 
 	mu      sync.Mutex
 	conns   []*Conn
@@ -239,9 +240,10 @@ func New(bufSize int64, authName string) (*Broker, error) {
 	defer regMu.Unlock()
 	authOnce.Do(func() { auth.Register(AuthUserPass, userPass{"user", "pass"}) })
 	name := fmt.Sprintf("verif-%d", atomic.AddInt64(&seq, 1))
-	topics.Register(name, topics.NewMemProvider())
+	gate := &gateProvider{Provider: topics.NewMemProvider()}
+	topics.Register(name, gate)
 	sessions.Register(name, sessions.NewMemProvider())
-	b := &Broker{Name: name, Srv: &service.Server{BufferSize: bufSize, ConnectTimeout: 1, TopicsProvider: name, SessionsProvider: name, Authenticator: authName}}
+	b := &Broker{gate: gate, Name: name, Srv: &service.Server{BufferSize: bufSize, ConnectTimeout: 1, TopicsProvider: name, SessionsProvider: name, Authenticator: authName}}
 	if err := b.Srv.VerifInit(); err != nil {
 		return nil, err
 	}
